@@ -21,20 +21,23 @@ import (
 
 // recCase: a chain with Recovery somewhere, a panic somewhere later, a request sequence (C15).
 type recCase struct {
-	Env    string   `json:"env"`                                        // development | production | test
-	Built  string   `json:"assembled_in_env,omitempty"`                 // the instance (incl. Recovery) is assembled while this environment is set, then the environment is switched to Env (serial cases only)
-	Pre    int      `json:"pre"`                                        // middleware placed before Recovery
-	Mid    []string `json:"mid"`                                        // handlers between Recovery and the panic site: plain | next | write-next
-	Where  string   `json:"where"`                                      // route | action | notfound | group
-	Phase  string   `json:"phase"`                                      // before | after-header | after-body
-	Kind   string   `json:"kind"`                                       // string | error | runtime | struct | int | abort | dep | nilerr | neterr-* | slice | map | structslice | sliceerr (values of uncomparable types)
-	Accept string   `json:"accept,omitempty"`                           // request header: the body of the error response does not depend on it
-	Buffer bool     `json:"buffering_writer_in_front,omitempty"`        // the first middleware (before Recovery) substitutes the http.ResponseWriter service by a buffer and releases it after Next(); Kind may also be nilerr (an error value whose Error method cannot run)
-	Method string   `json:"method,omitempty"`                           // GET (default) | HEAD: the error response of a HEAD request has the same status and no body
-	Deep   int      `json:"frames_below_the_panic,omitempty"`           // the panicking handler recurses this deep before it panics (the stack Recovery prints is that much longer)
-	Inner  bool     `json:"second_recovery_nearer_the_panic,omitempty"` // a second Recovery sits after the mid handlers, with one more Next()-calling middleware between the two: the panic stops at the inner one, so that middleware (placed before a Recovery) completes as well
-	Marker string   `json:"marker"`                                     // unique text carried by the panic value
-	Seq    []string `json:"seq"`                                        // ok | panic …
+	Env    string      `json:"env"`                                        // development | production | test
+	Built  string      `json:"assembled_in_env,omitempty"`                 // the instance (incl. Recovery) is assembled while this environment is set, then the environment is switched to Env (serial cases only)
+	Pre    int         `json:"pre"`                                        // middleware placed before Recovery
+	Mid    []string    `json:"mid"`                                        // handlers between Recovery and the panic site: plain | next | write-next
+	Where  string      `json:"where"`                                      // route | action | notfound | group
+	Phase  string      `json:"phase"`                                      // before | after-header | after-body
+	Kind   string      `json:"kind"`                                       // string | error | runtime | struct | int | abort | dep | nilerr | neterr-* | slice | map | structslice | sliceerr (values of uncomparable types)
+	Accept string      `json:"accept,omitempty"`                           // request header: the body of the error response does not depend on it
+	Hdrs   [][2]string `json:"further_request_headers,omitempty"`          // client-controlled headers (addresses, hosts, debug switches): the error response does not depend on them either
+	Remote string      `json:"remote_addr,omitempty"`                      // Request.RemoteAddr: the peer may be the machine itself
+	Query  string      `json:"query,omitempty"`                            // raw query of the panicking requests
+	Buffer bool        `json:"buffering_writer_in_front,omitempty"`        // the first middleware (before Recovery) substitutes the http.ResponseWriter service by a buffer and releases it after Next(); Kind may also be nilerr (an error value whose Error method cannot run)
+	Method string      `json:"method,omitempty"`                           // GET (default) | HEAD: the error response of a HEAD request has the same status and no body
+	Deep   int         `json:"frames_below_the_panic,omitempty"`           // the panicking handler recurses this deep before it panics (the stack Recovery prints is that much longer)
+	Inner  bool        `json:"second_recovery_nearer_the_panic,omitempty"` // a second Recovery sits after the mid handlers, with one more Next()-calling middleware between the two: the panic stops at the inner one, so that middleware (placed before a Recovery) completes as well
+	Marker string      `json:"marker"`                                     // unique text carried by the panic value
+	Seq    []string    `json:"seq"`                                        // ok | panic …
 }
 
 // c15Strict refuses status codes outside 100..999 the way net/http's own writer does: by panicking, before
@@ -157,6 +160,13 @@ func genRecCase(rng *rand.Rand, env string) *recCase {
 		}
 	}
 	c.Accept = []string{"", "", "application/json", "text/html", "application/json, text/plain, */*", "*/*"}[rng.Intn(6)]
+	if rng.Intn(2) == 0 {
+		for n := 1 + rng.Intn(3); n > 0; n-- {
+			c.Hdrs = append(c.Hdrs, c15ClientHeaders[rng.Intn(len(c15ClientHeaders))])
+		}
+	}
+	c.Remote = []string{"", "", "192.0.2.1:1234", "127.0.0.1:50412", "[::1]:50412", "127.8.9.1:80", "localhost:1", "@"}[rng.Intn(8)]
+	c.Query = []string{"", "", "", "debug=1", "env=development", "FLAMEGO_ENV=development", "trace", "pretty=true&verbose"}[rng.Intn(8)]
 	c.Marker = fmt.Sprintf("MK%dZ", 100000+rng.Intn(900000))
 	if c.Kind == "int" {
 		c.Marker = fmt.Sprint(100000 + rng.Intn(900000))
@@ -170,6 +180,19 @@ func genRecCase(rng *rand.Rand, env string) *recCase {
 	}
 	c.Seq = append(c.Seq, "panic", "ok")
 	return c
+}
+
+// c15ClientHeaders: what a client can say about itself. None of it decides how much an error response tells.
+var c15ClientHeaders = [][2]string{
+	{"X-Real-IP", "127.0.0.1"}, {"X-Real-IP", "::1"}, {"X-Forwarded-For", "127.0.0.1"}, {"X-Forwarded-For", "::1"},
+	{"X-Forwarded-For", "127.0.0.1, 203.0.113.7"}, {"X-Forwarded-For", "10.0.0.1"}, {"X-Real-IP", "localhost"},
+	{"Forwarded", "for=127.0.0.1;proto=http;host=localhost"}, {"X-Forwarded-Host", "localhost"}, {"X-Forwarded-Proto", "https"},
+	{"Host", "localhost"}, {"Origin", "http://localhost:2830"}, {"Referer", "http://127.0.0.1:2830/debug"},
+	{"X-Debug", "1"}, {"X-Debug", "true"}, {"Debug", "1"}, {"X-Flamego-Env", "development"}, {"Flamego-Env", "development"},
+	{"Cookie", "debug=1; env=development; FLAMEGO_ENV=development"}, {"User-Agent", "curl/8.5.0"}, {"User-Agent", "Go-http-client/1.1"},
+	{"Authorization", "Basic YWRtaW46YWRtaW4="}, {"X-Requested-With", "XMLHttpRequest"}, {"Pragma", "debug"},
+	{"Content-Type", "application/json"}, {"X-Env", "development"}, {"Via", "1.1 localhost"}, {"Client-IP", "127.0.0.1"},
+	{"True-Client-IP", "127.0.0.1"}, {"CF-Connecting-IP", "127.0.0.1"}, {"X-Client-IP", "::1"}, {"X-Cluster-Client-IP", "127.0.0.1"},
 }
 
 // markerOf: the text that identifies the panic detail in a development-mode body.
@@ -509,7 +532,25 @@ func judgeRec(w *core.W, c *recCase) {
 			if c.Method == "HEAD" && path != "/ok" {
 				meth = "HEAD"
 			}
-			f.ServeHTTP(c15Strict{spy}, &http.Request{Method: meth, URL: &url.URL{Path: path}, Header: hdr, RequestURI: path})
+			req := &http.Request{Method: meth, URL: &url.URL{Path: path}, Header: hdr, RequestURI: path}
+			if path != "/ok" {
+				for _, h := range c.Hdrs {
+					if h[0] == "Host" {
+						req.Host = h[1]
+						continue
+					}
+					hdr.Add(h[0], h[1])
+				}
+				req.RemoteAddr = c.Remote
+				if c.Query != "" {
+					req.URL.RawQuery = c.Query
+					req.RequestURI = path + "?" + c.Query
+				}
+				if len(c.Hdrs) > 0 || c.Remote != "" || c.Query != "" {
+					w.Count("panicking-requests-with-client-address-or-debug-hints")
+				}
+			}
+			f.ServeHTTP(c15Strict{spy}, req)
 		}()
 		o.status, o.body, o.events = spy.status, string(spy.body), events
 		return o
